@@ -41,6 +41,11 @@ def alphabet(full=True):
     A.append({"op": "incr", "k": "a", "d": 5, "nr": True})
     A.append({"op": "delete", "k": "a", "nr": True})
     A.append({"op": "touch", "k": "a", "e": 0, "nr": None})
+    # conditional store with an expiry (then the clock passes it)
+    A.append({"op": "cas", "k": "a", "v": b"t", "cas": "FRESH", "e": 100, "nr": False})
+    A.append({"op": "add", "k": "a", "v": b"t", "e": 100, "nr": False})
+    A.append({"op": "replace", "k": "a", "v": b"t", "e": 50, "nr": False})
+    A.append({"op": "gats", "k": "a", "e": 100})
     # every reply-less form: the documented constant is returned and the effect still takes place
     A.append({"op": "cas", "k": "a", "v": b"n", "cas": "FRESH", "nr": True})
     A.append({"op": "cas", "k": "a", "v": b"n", "cas": b"99999", "nr": True})
@@ -126,6 +131,18 @@ def main(argv):
     hists += [h for h in itertools.product(full if ctx.thorough else red, repeat=3)]
     for _ in range(3000 if ctx.thorough else 300):
         hists.append(tuple(rng.choice(full) for _ in range(30)))
+    # targeted histories: every way of giving an item an expiry, observed just before and just after it passes
+    setup = [{"op": "set", "k": "a", "v": b"1", "nr": False}, {"op": "gets", "k": "a"}]
+    with_exp = [{"op": "set", "k": "a", "v": b"1", "e": 100, "nr": False}, {"op": "set", "k": "a", "v": b"1", "e": 100, "nr": True},
+                {"op": "add", "k": "z", "v": b"1", "e": 100, "nr": False}, {"op": "replace", "k": "a", "v": b"2", "e": 100, "nr": False},
+                {"op": "cas", "k": "a", "v": b"2", "cas": "FRESH", "e": 100, "nr": False}, {"op": "cas", "k": "a", "v": b"2", "cas": "FRESH", "e": 100, "nr": True},
+                {"op": "touch", "k": "a", "e": 100, "nr": False}, {"op": "touch", "k": "a", "e": 100, "nr": True}, {"op": "gat", "k": "a", "e": 100}, {"op": "gats", "k": "a", "e": 100},
+                {"op": "set_many", "items": [("a", b"1"), ("b", b"2")], "e": 100, "nr": False}, {"op": "append", "k": "a", "v": b"x", "e": 100, "nr": False},
+                {"op": "incr", "k": "a", "d": 1, "nr": False}]
+    for w in with_exp:
+        k = w.get("k", "a")
+        for adv in (99, 100, 101):
+            hists.append(tuple(setup + [w, {"op": "ADVANCE", "dt": adv}, {"op": "get", "k": k}, {"op": "add", "k": k, "v": b"n", "nr": False}, {"op": "gets", "k": k}]))
     ctx.exhaustive = True
     out = []
     for i, h in enumerate(hists):
